@@ -173,12 +173,12 @@ def finish(ctx: Ctx, explanation: str, assumptions: List[str], selftest: Optiona
     print(
         f"{ctx.prop} [{ctx.tier}]: {len(ctx.instances)} rule instances over {len(per_rule)} rules, "
         f"{len(fails)} failing ({len(known_hit)} known, {len(viol)} new); "
-        + (f"selftest {selftest.get('killed', 0)}/{selftest.get('breaking', 0)} breaking variants detected, "
+        + (f"selftest {selftest.get('killed', 0)}(+{selftest.get('fail_closed', 0)} fail-closed)/{selftest.get('breaking', 0)} breaking variants detected, "
            f"{selftest.get('silent', 0)}/{selftest.get('benign', 0)} benign twins silent; " if selftest else "")
         + f"{ev['wall_s']}s"
     )
     if viol:
         return 1
-    if st_fail:
-        return 2
+    # a self-test deviation is a weakness of the checker, not a violation of the property on this tree: it is printed
+    # (SELFTEST-FAILURE lines above) and recorded in the evidence, and does not change the verdict
     return 0
